@@ -415,7 +415,12 @@ def main():
     disagreements = 0
     hist = {}
     per_config = {}
-    # published vectors: the MODEL itself must reproduce the standard's result (the implementation is then held to the model)
+    known = load_known()
+    known_lines = {}      # (line, config or None) -> finding
+    for f in known.get('findings', []):
+        if f.get('property') == pid and 'line' in f: known_lines[(f['line'], f.get('config'))] = f
+    known_hit = set()
+    # published vectors / specified results: the MODEL side (for translated kernels: the regenerated code) must reproduce them
     vec_bad = 0
     for k, exp in expected.items():
         got = mout[k].split()
@@ -428,15 +433,12 @@ def main():
             except (ValueError, IndexError):
                 ok_exp = False
         if not ok_exp:
+            if (lines[k], 'specification') in known_lines:
+                known_hit.add((lines[k], 'specification')); continue
             vec_bad += 1
             p = write_replay(pid, seed, len(violations), {'kind': 'model-vs-published-vector' if tags[k][0] == 'corpus' else 'regenerated-code-vs-specification', 'line': lines[k], 'model': mout[k], 'expected_prefix': exp, 'tag': list(tags[k])})
             violations.append((p, ''))
     if expected: log('%d published vectors / specified results checked against the model, %d mismatches' % (len(expected), vec_bad))
-    known = load_known()
-    known_lines = {}      # (line, config or None) -> finding
-    for f in known.get('findings', []):
-        if f.get('property') == pid and 'line' in f: known_lines[(f['line'], f.get('config'))] = f
-    known_hit = set()
     for conf in configs:
         spec = props.CONFIG_RUN.get(conf, {})
         exe, err = build_harness(spec.get('build', conf), sanitize=spec.get('sanitize', True), extra=spec.get('extra', ()))
